@@ -252,3 +252,107 @@ Proof.
       * subst st1. cbn [set_buf ps_wait_sps vset]. exact Hfl.
       * exists st'. split; [exact E|exact R].
 Qed.
+
+(* ---------------------------------------------------------------- one audio PES packet *)
+Definition aset (st : ps_state) (abuf : bytes) (pts dts rtp : Z) : ps_state :=
+  mk_ps (ps_list st) (ps_size st) (ps_done st) (ps_buf st) abuf (ps_vbuf st)
+        (ps_ast st) (ps_vst st) (ps_apt st) (ps_vpt st)
+        pts (ps_pre_vpts st) dts (ps_pre_vdts st) rtp (ps_pre_vrtpts st) (ps_wait_sps st).
+
+Definition audio_known (st : ps_state) : bool := (ps_ast st =? 15) || (ps_ast st =? 144) || (ps_ast st =? 145).
+
+Definition audio_pes_result (st : ps_state) (rtpts : N) (pts : option N) (data : bytes) : res (Z * ps_state * list ps_ev) :=
+  let rtp := Z.of_N rtpts in
+  let consumed := Z.of_N (2 + pes_len pts data) in
+  if audio_known st then
+    match pts with
+    | Some v =>
+        let p := Z.of_N v in
+        if (negb (p =? ps_pre_apts st) && (0 <=? ps_pre_apts st))%Z then
+          Ok (consumed, aset st ([] ++ data) p p rtp,
+              [mk_psev (ps_apt st) (Z.quot (ps_pre_adts st) 90) (Z.quot (ps_pre_apts st) 90) (ps_abuf st)])
+        else Ok (consumed, aset st (ps_abuf st ++ data) p p rtp, [])
+    | None => Ok (consumed, aset st (ps_abuf st ++ data) (ps_pre_apts st) (ps_pre_adts st) rtp, [])
+    end
+  else Ok (consumed, st, []).
+
+Lemma parse_audio_pes st rtpts pts data rest : pes_ok (pts, data) ->
+  (pts = None -> ps_pre_apts st <> (-1)%Z) ->
+  parse_av_stream true st 448 rtpts (pes_pkt 192 pts data ++ rest) = audio_pes_result st rtpts pts data.
+Proof.
+  intros [HL Hv] Hnone. cbn [fst snd] in HL, Hv.
+  set (rb := pes_pkt 192 pts data ++ rest).
+  assert (Hlen : lenN rb = 6 + pes_len pts data + lenN rest) by apply lenN_pes.
+  assert (HLge : 3 + lenN (pes_hd pts) <= pes_len pts data) by (unfold pes_len; lia).
+  unfold parse_av_stream. cbn [andb].
+  assert (lenN rb <? 6 = false) as -> by (apply N.ltb_ge; lia).
+  assert (Ebe : be_at s_ps_av_slice s_ps_be16_index 2 rb 4 = Ok (pes_len pts data)).
+  { unfold be_at. assert (lenN rb <? 4 = false) as -> by (apply N.ltb_ge; lia).
+    assert (lenN rb <? 4 + 2 = false) as -> by (apply N.ltb_ge; lia).
+    subst rb. unfold pes_pkt. change (N.to_nat 4) with 4%nat. change (N.to_nat 2) with 2%nat. cbn [app skipn firstn].
+    f_equal. unfold be_get. cbn [be_get_acc]. lia. }
+  rewrite Ebe. cbn [bind].
+  assert (lenN rb - 6 <? pes_len pts data = false) as -> by (apply N.ltb_ge; lia).
+  assert (pes_len pts data <? 3 = false) as -> by (apply N.ltb_ge; lia).
+  rewrite (idx_nth s_ps_av_index rb 7 (pes_flags pts)) by reflexivity. cbn [bind].
+  rewrite (idx_nth s_ps_av_index rb 8 (lenN (pes_hd pts))) by reflexivity. cbn [bind].
+  assert (Eis : is_audio_code 448 = true) by reflexivity. rewrite Eis.
+  assert (Eslice : (if lenN rb <? 6 + pes_len pts data then Panic s_ps_av_slice
+                    else slice s_ps_av_slice rb (9 + lenN (pes_hd pts)) (6 + pes_len pts data)) = Ok data).
+  { assert (lenN rb <? 6 + pes_len pts data = false) as -> by (apply N.ltb_ge; lia).
+    rewrite slice_ok by lia. subst rb. rewrite skipn_pes_data.
+    replace (N.to_nat (6 + pes_len pts data - (9 + lenN (pes_hd pts)))) with (length data) by (unfold pes_len, lenN; lia).
+    rewrite firstn_app, firstn_all, Nat.sub_diag. cbn [firstn]. rewrite app_nil_r. reflexivity. }
+  unfold audio_pes_result, audio_known.
+  destruct pts as [v|].
+  - cbn [pes_flags pes_hd] in *. change (lenN (pts_field v)) with 5 in *.
+    change (128 / 64) with 2. change (2 <=? 2) with true. change (2 mod 2 =? 1) with false. cbv iota.
+    change (5 + 0) with 5.
+    assert ((pes_len (Some v) data <? 3 + 5) || (5 <? 5) = false) as ->.
+    { apply orb_false_iff. split; [apply N.ltb_ge; lia|reflexivity]. }
+    assert (Epts : read_pts rb 9 = Ok (Z.of_N v)).
+    { unfold read_pts. assert (lenN rb <? 9 = false) as -> by (apply N.ltb_ge; lia).
+      rewrite (idx_nth s_ps_readpts_index rb 9 (32 + ((v / 1073741824) mod 8) * 2 + 1)) by reflexivity. cbn [bind].
+      rewrite (idx_nth s_ps_readpts_index rb (9 + 1) ((v / 4194304) mod 256)) by reflexivity. cbn [bind].
+      rewrite (idx_nth s_ps_readpts_index rb (9 + 2) (((v / 32768) mod 128) * 2 + 1)) by reflexivity. cbn [bind].
+      rewrite (idx_nth s_ps_readpts_index rb (9 + 3) ((v / 128) mod 256)) by reflexivity. cbn [bind].
+      rewrite (idx_nth s_ps_readpts_index rb (9 + 4) ((v mod 128) * 2 + 1)) by reflexivity. cbn [bind].
+      rewrite (pts_value v Hv). reflexivity. }
+    rewrite Epts. cbn [bind].
+    destruct ((ps_ast st =? 15) || (ps_ast st =? 144) || (ps_ast st =? 145)); [|reflexivity].
+    assert ((Z.of_N v =? -1)%Z = false) as -> by (apply Z.eqb_neq; lia).
+    destruct (negb (Z.of_N v =? ps_pre_apts st)%Z && (0 <=? ps_pre_apts st)%Z); rewrite Eslice; reflexivity.
+  - cbn [pes_flags pes_hd] in *. change (lenN (@nil N)) with 0 in *.
+    change (0 / 64) with 0. change (2 <=? 0) with false. change (0 mod 2 =? 1) with false. cbv iota.
+    change (0 + 0) with 0.
+    assert ((pes_len None data <? 3 + 0) || (0 <? 0) = false) as ->.
+    { apply orb_false_iff. split; [apply N.ltb_ge; lia|reflexivity]. }
+    cbn [bind].
+    destruct ((ps_ast st =? 15) || (ps_ast st =? 144) || (ps_ast st =? 145)); [|reflexivity].
+    change ((-1 =? -1)%Z) with true. cbv iota.
+    assert ((ps_pre_apts st =? -1)%Z = false) as -> by (apply Z.eqb_neq; apply Hnone; reflexivity).
+    change (9 + 0) with 9 in Eslice |- *. rewrite Eslice. reflexivity.
+Qed.
+
+(* a proper prefix of a PES packet in the buffer: FeedRtpBody waits for the rest *)
+Lemma pes_prefix_waits st code rtpts sid pts data P Q : pes_ok (pts, data) ->
+  P ++ Q = pes_pkt sid pts data -> Q <> [] -> 6 <= lenN P ->
+  parse_av_stream true st code rtpts P = Ok ((-1)%Z, st, []).
+Proof.
+  intros [HL _] E HQ H6. cbn [fst snd] in HL. unfold parse_av_stream. cbn [andb].
+  assert (lenN P <? 6 = false) as -> by (apply N.ltb_ge; lia).
+  assert (Hlen : lenN P + lenN Q = 6 + pes_len pts data).
+  { pose proof (lenN_pes sid pts data []) as H. rewrite app_nil_r, <- E, lenN_app in H. unfold lenN in *. cbn [length] in H. lia. }
+  assert (HQ1 : 1 <= lenN Q) by (destruct Q; [congruence|rewrite lenN_cons; lia]).
+  assert (Ebe : be_at s_ps_av_slice s_ps_be16_index 2 P 4 = Ok (pes_len pts data)).
+  { unfold be_at. assert (lenN P <? 4 = false) as -> by (apply N.ltb_ge; lia).
+    assert (lenN P <? 4 + 2 = false) as -> by (apply N.ltb_ge; lia).
+    assert (E6 : firstn 6 P = firstn 6 (pes_pkt sid pts data)).
+    { rewrite <- E, firstn_app. replace (6 - length P)%nat with 0%nat by (unfold lenN in H6; lia). cbn [firstn]. rewrite app_nil_r. reflexivity. }
+    change (N.to_nat 4) with 4%nat. change (N.to_nat 2) with 2%nat.
+    assert (E2 : firstn 2 (skipn 4 P) = firstn 2 (skipn 4 (firstn 6 P))).
+    { rewrite skipn_firstn_comm. change (6 - 4)%nat with 2%nat. rewrite firstn_firstn. reflexivity. }
+    rewrite E2, E6. unfold pes_pkt. cbn [firstn skipn]. f_equal. unfold be_get. cbn [be_get_acc]. lia. }
+  rewrite Ebe. cbn [bind].
+  assert (lenN P - 6 <? pes_len pts data = true) as -> by (apply N.ltb_lt; lia). reflexivity.
+Qed.
